@@ -566,26 +566,65 @@ class HInterp:
         if isinstance(s, ast.For):
             return self.loop(s, p)
         if isinstance(s, ast.While):
-            # `i = 0 ... while i < n: body; i += 1`  is  `for i in range(n): body`
+            # counter loops:  `while i < n: body; i += 1`  is  `for i in range(<i now>, n): body`;
+            #                 `while j > 0: body; j -= 1`  is  `for j in range(<j now>, 0, -1): body`
             t = s.test
-            if isinstance(t, ast.Compare) and len(t.ops) == 1 and isinstance(t.ops[0], ast.Lt) and isinstance(t.left, ast.Name) and s.body and not s.orelse:
-                iv = t.left.id
+            if isinstance(t, ast.Compare) and len(t.ops) == 1 and s.body and not s.orelse:
+                l_, r_, o_ = t.left, t.comparators[0], type(t.ops[0])
+                flip = {ast.Lt: ast.Gt, ast.Gt: ast.Lt, ast.LtE: ast.GtE, ast.GtE: ast.LtE, ast.NotEq: ast.NotEq}
+                iv = bound = None
                 last = s.body[-1]
-                inc = isinstance(last, ast.AugAssign) and isinstance(last.op, ast.Add) and isinstance(last.target, ast.Name) and last.target.id == iv
-                others = [x for b in s.body[:-1] for x in ast.walk(b) if isinstance(x, ast.Name) and x.id == iv and isinstance(x.ctx, ast.Store)]
-                esc = [x for x in ast.walk(s) if isinstance(x, (ast.Break, ast.Continue))]
-                start = p.env.get(iv)
-                try:
-                    zero = start is not None and not isinstance(start, (BytesV, BlocksV)) and nf(start) == ("c", 0)
-                    one = inc and nf(self.ev(last.value, p)) == ("c", 1)
-                except (AnalysisError, HUndecided, TypeError):
-                    zero = one = False
-                if inc and one and zero and not others and not esc:
-                    f = ast.copy_location(ast.For(target=ast.Name(id=iv, ctx=ast.Store()),
-                                                  iter=ast.Call(func=ast.Name(id="range", ctx=ast.Load()), args=[t.comparators[0]], keywords=[]),
-                                                  body=s.body[:-1] or [ast.Pass()], orelse=[]), s)
-                    ast.fix_missing_locations(f)
-                    return self.loop(f, p)
+                def _step(last, name):
+                    """+1 / -1 when `last` is `name += 1`, `name = name + 1`, `name = 1 + name`, `name -= 1`, `name = name - 1`"""
+                    try:
+                        if isinstance(last, ast.AugAssign) and isinstance(last.target, ast.Name) and last.target.id == name \
+                                and isinstance(last.op, (ast.Add, ast.Sub)) and nf(self.ev(last.value, p)) == ("c", 1):
+                            return 1 if isinstance(last.op, ast.Add) else -1
+                        if isinstance(last, ast.Assign) and len(last.targets) == 1 and isinstance(last.targets[0], ast.Name) and last.targets[0].id == name \
+                                and isinstance(last.value, ast.BinOp) and isinstance(last.value.op, (ast.Add, ast.Sub)):
+                            a_, b_ = last.value.left, last.value.right
+                            if isinstance(a_, ast.Name) and a_.id == name and nf(self.ev(b_, p)) == ("c", 1):
+                                return 1 if isinstance(last.value.op, ast.Add) else -1
+                            if isinstance(last.value.op, ast.Add) and isinstance(b_, ast.Name) and b_.id == name and nf(self.ev(a_, p)) == ("c", 1):
+                                return 1
+                    except (AnalysisError, HUndecided, TypeError):
+                        return None
+                    return None
+                for cand, other, oo in ((l_, r_, o_), (r_, l_, flip.get(o_))):
+                    if isinstance(cand, ast.Name) and oo is not None and _step(last, cand.id) is not None:
+                        iv, bound, o_ = cand.id, other, oo
+                        break
+                if iv is not None:
+                    st = _step(last, iv)
+                    others = [x for b in s.body[:-1] for x in ast.walk(b) if isinstance(x, ast.Name) and x.id == iv and isinstance(x.ctx, ast.Store)]
+                    esc = [x for x in ast.walk(s) if isinstance(x, (ast.Break, ast.Continue))]
+                    start = p.env.get(iv)
+                    okstart = start is not None and not isinstance(start, (BytesV, BlocksV))
+                    rng_args = None
+                    if okstart and not others and not esc:
+                        sname = "while__start%d" % id(s)
+                        p.env[sname] = start
+                        sn = ast.Name(id=sname, ctx=ast.Load())
+                        try:
+                            zero = nf(start) == ("c", 0)
+                        except (AnalysisError, TypeError):
+                            zero = False
+                        if st == 1 and o_ is ast.Lt:
+                            rng_args = [bound] if zero else [sn, bound]
+                        elif st == 1 and o_ is ast.LtE:
+                            rng_args = [sn, ast.BinOp(left=bound, op=ast.Add(), right=ast.Constant(value=1))]
+                        elif st == -1 and o_ is ast.Gt:
+                            rng_args = [sn, bound, ast.Constant(value=-1)]
+                        elif st == -1 and o_ is ast.GtE:
+                            rng_args = [sn, ast.BinOp(left=bound, op=ast.Sub(), right=ast.Constant(value=1)), ast.Constant(value=-1)]
+                    if rng_args is not None:
+                        f = ast.copy_location(ast.For(target=ast.Name(id=iv, ctx=ast.Store()),
+                                                      iter=ast.Call(func=ast.Name(id="range", ctx=ast.Load()), args=rng_args, keywords=[]),
+                                                      body=s.body[:-1] or [ast.Pass()], orelse=[]), s)
+                        ast.fix_missing_locations(f)
+                        outs = self.loop(f, p)
+                        # after the loop the counter holds the bound it stopped at; nothing in these functions reads it again
+                        return outs
             raise HUndecided("statement `%s`" % unparse(s, 50))
         if isinstance(s, (ast.Pass, ast.Assert)):
             return [("fall", p, None)]
@@ -723,8 +762,14 @@ class HInterp:
         if self.case is not None and isinstance(s.target, ast.Name) and not s.orelse:
             # a loop whose bounds the case decides is unrolled; a loop over the blocks of a block-less key does not run
             if isinstance(it, ast.Call) and dotted(it.func) == "range" and 1 <= len(it.args) <= 3 and not it.keywords:
+                def _cv(a):
+                    if isinstance(a, ast.Constant) and isinstance(a.value, int) and not isinstance(a.value, bool):
+                        return a.value
+                    if isinstance(a, ast.UnaryOp) and isinstance(a.op, ast.USub) and isinstance(a.operand, ast.Constant) and isinstance(a.operand.value, int):
+                        return -a.operand.value
+                    return self.conc(self.ev(a, p))
                 try:
-                    vals = [self.conc(self.ev(a, p)) for a in it.args]
+                    vals = [_cv(a) for a in it.args]
                 except HUndecided:
                     vals = [None]
                 if all(v is not None and abs(v) < 2 ** 31 for v in vals) and (len(vals) < 3 or vals[2] != 0):
